@@ -46,6 +46,7 @@ func checkC20(r *core.Run) {
 			c20Links(r, p)
 			c20Sym(r, p)
 			c20ReleaseOnlyEmpty(r, p, "R-C20-links")
+			c20PageCacheSources(r, p, "R-C20-links")
 		}
 	}
 }
@@ -993,4 +994,46 @@ func c20ReleaseOnlyEmpty(r *core.Run, p *core.Program, rule string) {
 		}
 	})
 	r.Check(bad == "" && n > 0, rule, key, p.Pos(fn.Pos()), "a page is handed back only with a used count of 0", bad)
+}
+
+// c20PageCacheSources: pages taken from the page cache are linked into a class by code that sets only the
+// class, the free count and the list links of the page header - it relies on the rest of the header (bump
+// position, used count, per-page free list) being zero, as it is in a freshly mapped page.  So only such
+// pages may be put into the cache.  Every call of pageCachePut passes (a) the result of a fresh mapping, or
+// (b) the page handed back by the shared free function, which does so only with a used count of 0
+// (release-only-empty) and, for valid frees, never (the count is at least 1 then).  A page that went through
+// allocation and evacuation (defragmentation) keeps its old bump position and must be unmapped instead.
+func c20PageCacheSources(r *core.Run, p *core.Program, rule string) {
+	allowed := map[string]string{
+		"lib/others/memory.mmap":                           "a fresh, zero-filled mapping",
+		"(*lib/others/memory.Allocator).mmap":              "a fresh, zero-filled mapping",
+		"(*lib/others/memory.Allocator).uintptrFreeShared": "handed back only with a used count of 0 (release-only-empty)",
+	}
+	n := 0
+	for _, fn := range p.ModuleFuncs() {
+		if fn.Pkg == nil || !strings.HasSuffix(fn.Pkg.Pkg.Path(), "lib/others/memory") {
+			continue
+		}
+		for _, c := range an.CallsTo(fn, false, "(*lib/others/memory.Allocator).pageCachePut") {
+			n++
+			arg := c.Common().Args[1]
+			bad := ""
+			for _, leaf := range an.PhiLeaves(arg) {
+				v := leaf
+				if ex, ok := v.(*ssa.Extract); ok {
+					v = ex.Tuple
+				}
+				call, ok := v.(*ssa.Call)
+				if !ok {
+					bad = "a page that is not the direct result of a mapping (" + an.Anon(an.Expr(leaf)) + ")"
+					continue
+				}
+				if _, ok := allowed[an.CallName(call)]; !ok {
+					bad = "the result of " + an.CallName(call)
+				}
+			}
+			r.Check(bad == "", rule, "page-cache-sources/"+core.FuncName(fn), p.Pos(c.Pos()), "only fresh or never-used pages enter the page cache", "the page cache is given "+bad+": a page that was in use keeps its bump position and counters, and the code that reuses cached pages does not reset them")
+		}
+	}
+	r.Check(n >= 2, rule, "page-cache-sources/sites", "-", fmt.Sprintf("%d places put a page into the cache", n), fmt.Sprintf("%d places put a page into the cache (expected at least 2)", n))
 }
